@@ -6,7 +6,7 @@
  * Witness seeds attaining the per-position maxima are then encoded and decoded under ASan. */
 #include "h.h"
 
-static const char *CLS[] = { "bound_holds(lang x mask x form)", "witness_encoded_and_decoded", NULL };
+static const char *CLS[] = { "bound_holds(lang x mask x form)", "witness_encoded_and_decoded", "length_returned_and_fed_back(seed x lang x coin)", NULL };
 static size_t LEN[R_NLANG][3][R_NW];   /* form 0 = emitted (NFC if composing), 1 = stored/decomposed, 2 = NFKD */
 static char *EMIT[R_NLANG][R_NW];
 
@@ -16,6 +16,25 @@ static int admissible(int p, unsigned idx, unsigned mask) {
     return 1;                                            /* positions 0, 1 (coin xor reaches every index), 6..15 */
 }
 
+static void fb_one(polyseed_data *d, const rseed *sp, const uint8_t s0[32], int li, unsigned coin, struct res *r) {
+    rseed s = *sp;
+    struct { polyseed_str out; uint8_t canary[32]; } b; memset(&b, 0x6B, sizeof b);
+    size_t n = polyseed_encode(d, polyseed_get_lang(li), (polyseed_coin)coin, b.out); r->calls++; r->cases++;
+    char rep[120], h[40]; hex(s.secret, 19, h); snprintf(rep, sizeof rep, "fb %s %u %u %d %u", h, s.birthday, s.features, li, coin);
+    int bad = 0; for (int i = 0; i < 32; i++) if (b.canary[i] != 0x6B) bad |= 1;
+    size_t real = strnlen(b.out, PSTR);
+    if (real >= PSTR) bad |= 1;
+    if (!bad && real != n) { char key[64]; snprintf(key, sizeof key, "c17:returned-length:%s", RL[li].code); res_viol(r, key, rep, "%s, coin %u: polyseed_encode returned %zu but the NUL-terminated output is %zu bytes long", RL[li].name_en, coin, n, real); return; }
+    if (bad) { res_viol(r, "c17:feedback-overrun", rep, "encode wrote outside the phrase buffer or left it unterminated"); return; }
+    polyseed_data *e = NULL; int st = polyseed_decode_explicit(b.out, (polyseed_coin)coin, polyseed_get_lang(li), &e); r->calls++;
+    uint8_t s1[32]; int same = 0; if (st == POLYSEED_OK) { polyseed_store(e, s1); polyseed_free(e); same = !memcmp(s0, s1, 32); }
+    if (st != POLYSEED_OK || !same) { char key[64]; snprintf(key, sizeof key, "c17:feedback:%s", RL[li].code); res_viol(r, key, rep, "%s phrase of %zu bytes produced by encode (coin %u) fed back to decode_explicit: status %d%s", RL[li].name_en, n, coin, st, st == 0 ? ", different seed" : ""); return; }
+    e = NULL; st = polyseed_decode(b.out, (polyseed_coin)coin, NULL, &e); r->calls++; if (st == POLYSEED_OK) polyseed_free(e);
+    if (st != POLYSEED_OK && st != POLYSEED_ERR_MULT_LANG) { char key[64]; snprintf(key, sizeof key, "c17:feedback-auto:%s", RL[li].code); res_viol(r, key, rep, "%s phrase of %zu bytes produced by encode (coin %u) fed back to decode: status %d", RL[li].name_en, n, coin, st); return; }
+    r->validated++; r->cls[2]++;
+    r->digest ^= mix64((uint64_t)li * 7 + coin, n);
+}
+
 int main(int argc, char **argv) {
     int a = common_args(argc, argv); (void)a;
     ref_init(VERIF_ROOT); sec_mark_initial(); env_init(); inject(0);
@@ -23,6 +42,11 @@ int main(int argc, char **argv) {
     struct res *r = calloc(1, sizeof *r);
     int replay_li = -1; unsigned replay_mask = 0;
     if (a < argc && !strcmp(argv[a], "case")) { replay_li = atoi(argv[a + 1]); replay_mask = atoi(argv[a + 2]); }
+    if (a + 5 < argc && !strcmp(argv[a], "fb")) {      /* fb <secret> <birthday> <features> <language> <coin> */
+        rseed s; parse_rseed(argv[a + 1], atoi(argv[a + 2]), atoi(argv[a + 3]), &s); polyseed_data *d = seed_from_ref(&s); if (!d) { printf("cannot load\n"); return 1; }
+        uint8_t s0[32]; polyseed_store(d, s0); fb_one(d, &s, s0, atoi(argv[a + 4]), (unsigned)atoi(argv[a + 5]), r);
+        for (int i = 0; i < r->nviol; i++) printf("REPRODUCED %s: %s\n", r->v[i].key, r->v[i].msg); return r->nviol ? 1 : 0;
+    }
     int NL = polyseed_get_num_langs();
     if (NL != R_NLANG) { printf("{\"parts\":[],\"fatal\":\"language registry has %d entries\"}\n", NL); return 0; }
     /* 1. collect the words the library emits: index i at position 15, tokenise the output */
@@ -110,6 +134,23 @@ int main(int argc, char **argv) {
         }
     }
     polyseed_enable_features(7);
+    /* 4. the returned length is the length of what was written, for every coin (the coin changes the second word after any
+     *    length the encoder may have computed), and every produced phrase goes back through both decoders untruncated */
+    if (replay_li < 0 || replay_li >= 100) {
+        long NS = G_thorough ? 6000 : 400; static const unsigned COINS[] = { 0, 1, 2, 1023, 1024, 2047 };
+        uint64_t ps = 0xFEED + (uint64_t)G_seed;
+        for (long x = 0; x < NS; x++) {
+            rseed s; for (int i = 0; i < 19; i++) s.secret[i] = (uint8_t)prng(&ps); s.secret[18] &= 0x3F; s.birthday = (unsigned)(prng(&ps) & 1023); s.features = (unsigned)(prng(&ps) & 7) | ((x & 3) == 3 ? 16 : 0);
+            polyseed_data *d = seed_from_ref(&s); r->calls++; if (!d) { res_viol(r, "c17:feedback-setup", "", "cannot load"); continue; }
+            uint8_t s0[32]; polyseed_store(d, s0);
+            for (int li = 0; li < R_NLANG; li++) for (unsigned ci = 0; ci < 7; ci++) {
+                unsigned coin = ci < 6 ? COINS[ci] : (unsigned)(prng(&ps) & 2047);
+                fb_one(d, &s, s0, li, coin, r);
+            }
+            polyseed_free(d);
+        }
+        res_sample(r, "%ld seeds x 10 languages x 7 coins: returned length = strlen, phrase accepted again by both decoders", NS);
+    }
     res_sample(r, "largest bound: %s ; sizeof(polyseed_str)=%zu", worst_desc, PSTR);
     if (replay_li >= 0) { for (int i = 0; i < r->nviol; i++) printf("REPRODUCED %s: %s\n", r->v[i].key, r->v[i].msg); printf("%s\n", worst_desc); return r->nviol ? 1 : 0; }
     out_begin();
